@@ -175,6 +175,7 @@ def eval_invariants(doc, checks, skip_jumped=False):
     vs = []
 
     def on_op(s, o):
+        ctx.tracker.update(s, o)
         if o.exc is not None or o.ret is None:
             return
         if skip_jumped and s.jumped:
@@ -520,7 +521,7 @@ def eval_C08(doc):
 
 # ----------------------------------------------------------------------------- C10 (in-process halves)
 def gen_C10(rng, tier):
-    mode = rng.choice(["relist", "relist", "rematch"])
+    mode = rng.choice(["relist", "relist", "relist", "rematch", "rematch", "clock"])
     prof = "single" if mode == "relist" else rng.choice(["history", "widen", "extend"])
     cfg_kw = {"second_order": rng.random() < 0.25}
     if mode == "relist" and rng.random() < 0.4:
@@ -557,6 +558,23 @@ def eval_C10(doc):
                                                                 (ob.obs["idx"], ob.obs["bestE"], ob.obs["tail"])), oa_))
         elif c.startswith("tie"):
             stats["ties"] = 1
+        return result(vs, doc, a, stats=stats)
+    if mode == "clock":
+        # the same session under another wall clock (steps, jumps backwards and forwards): time is only logged
+        a = run_session(doc)
+        d2 = clone(doc)
+        d2["faults"]["clock"] = doc.get("salt", 1) ^ 0x5a5a5a
+        b = run_session(d2)
+        for oa_, ob in zip(a.outcomes, b.outcomes):
+            if (oa_.exc is None) != (ob.exc is None):
+                vs.append(oa.V("C10/clock/exception-only-one-way", "%r vs %r" % (oa_.exc, ob.exc), oa_))
+                break
+            c = compare(oa_.obs, ob.obs, rel=0.0, abs_=0.0)
+            if c != "equal":
+                vs.append(oa.V("C10/clock/" + c, "result depends on the wall clock", oa_))
+                break
+        stats["probe_clock_twin"] = 1
+        stats["clock_reads_twin"] = b.clock.reads if b.clock else 0
         return result(vs, doc, a, stats=stats)
     # rematch on a used matcher == fresh matcher with the same width
     d1 = clone(doc)
@@ -843,9 +861,9 @@ def eval_C15(doc):
             us = [((p[0] - pa[0]) * (pb[0] - pa[0]) + (p[1] - pa[1]) * (pb[1] - pa[1])) / l2 for p in d1["trace"]]
             for u1, u2 in zip(us, us[1:]):
                 c1, c2 = min(1.0, max(0.0, u1)), min(1.0, max(0.0, u2))
-                both_clamped = (u1 <= 0 and u2 <= 0) or (u1 >= 1 and u2 >= 1)
-                near_end = any(abs(u) * math.sqrt(l2) < 0.5 or abs(u - 1) * math.sqrt(l2) < 0.5 for u in (u1, u2))
-                if (not both_clamped and abs(c1 - c2) * math.sqrt(l2) < 0.5) or (near_end and not both_clamped):
+                mrg = 0.5 / math.sqrt(l2)
+                clearly_same_end = (u1 <= -mrg and u2 <= -mrg) or (u1 >= 1 + mrg and u2 >= 1 + mrg)
+                if not clearly_same_end and abs(c1 - c2) * math.sqrt(l2) < 0.5:
                     return result(vs, doc, a, stats={"fragile": 1})
     if ob.exc is not None and oa_.exc is None:
         vs.append(oa.V("C15/latlon-raises/%s" % type(ob.exc).__name__, "%s" % (ob.exc,), ob))
@@ -871,7 +889,8 @@ def gen_C17(rng, tier):
     d = base_doc(rng, rng.choice(["single", "single", "extend", "widen"]), latlon_p=1.0 if latlon else 0.0,
                  world_kw={"shape": shape, "zero_len_p": 0.25, "linked_p": 0.1},
                  trace_kw={"exact_p": 0.5, "noise": rng.choice([0.0, 0.0, 0.1, 0.5]) * (20.0 if latlon else 1.0)},
-                 fault_kinds=("dup", "clock", "relist"), big_p=0.05)
+                 fault_kinds=("dup", "clock", "relist", "abort"), big_p=0.05)
+    # (abort: after an injected map failure the retried call must complete without raising)
     # every noise value: the positive-rounding guard depends on sigma
     unit = 20.0 if latlon else 1.0
     d["cfg"]["obs_noise"] = rng.uniform(0.05, 5.0) * unit
